@@ -169,6 +169,7 @@ func sortStringsAsc(a []string) {
 func parseSamText(text string) *SamCase {
 	sc := &SamCase{}
 	for _, l := range strings.Split(text, "\n") {
+		l = strings.TrimSuffix(l, "\r")
 		if l == "" {
 			continue
 		}
